@@ -425,3 +425,6 @@ def run(model, rep):
     rule_engine(model, rep)
     rule_alphabets(model, rep)
     rule_copies(model, rep)
+    # error mapping: every decode-table lookup turns KeyError into ValueError (rule shared with C08.c)
+    from . import c08, shared
+    c08.rule_c(model, shared.Renamed(rep, {"C08.c": "C12.h-error-mapping"}))
